@@ -142,6 +142,13 @@ impl NameResolution {
     pub fn resolve_pat(&mut self, pat: &ast::Pat, env: &mut ResolveLocalEnv, ctx: &ResolutionContext, hir_table: &mut HirTable) -> (r: hir::PatId)
         ensures env_names(final(env).0@) == env_names(old(env).0@) + pat_names(*pat),
     { unimplemented!() }
+    // the pattern of a match arm: resolved in a scope that holds exactly the names visible where the match stands (after its scrutinee) —
+    // in particular none that an EARLIER arm's pattern or body bound (C05: a binding is visible to the end of its arm only)
+    #[verifier::external_body]
+    pub fn resolve_arm_pat(&mut self, pat: &ast::Pat, env: &mut ResolveLocalEnv, Ghost(outer): Ghost<Seq<Seq<char>>>, ctx: &ResolutionContext, hir_table: &mut HirTable) -> (r: hir::PatId)
+        requires env_names(old(env).0@) == outer,
+        ensures env_names(final(env).0@) == env_names(old(env).0@) + pat_names(*pat),
+    { unimplemented!() }
     #[verifier::external_body]
     pub fn resolve_closure_param(&mut self, param: &ast::ClosureParam, env: &mut ResolveLocalEnv, ctx: &ResolutionContext, hir_table: &mut HirTable) -> (r: hir::ClosureParam)
     { unimplemented!() }
